@@ -87,6 +87,18 @@ func GenBody(r *Rand, kind string, big bool) BodySpec {
 	}
 	b := BodySpec{Kind: kind}
 	txt := func(n int) []byte { return r.text(n) }
+	// text fields (not arguments) now and then begin or end with a blank, a tab or a NUL:
+	// padding some devices send; such octets are part of the value like any other
+	ftxt := func(n int) []byte {
+		b := r.text(n)
+		if n > 0 && r.Chance(8) {
+			b[n-1] = PickOf(r, byte(' '), 0x00, '\t')
+		}
+		if n > 0 && r.Chance(4) {
+			b[0] = PickOf(r, byte(' '), 0x00)
+		}
+		return b
+	}
 	args := func(min, maxN int) [][]byte {
 		n := 0
 		switch r.Intn(6) {
@@ -130,12 +142,12 @@ func GenBody(r *Rand, kind string, big bool) BodySpec {
 	case model.KAuthenStart:
 		typ := uint8(1 + r.Intn(6))
 		l := r.lens(4, m8, 1000)
-		data := txt(l[3])
+		data := ftxt(l[3])
 		if typ != 1 && r.Chance(30) {
 			data = r.Bytes(l[3]) // non-ASCII data is allowed unless the type is ASCII
 		}
 		b.N = []uint8{PickOf(r, actions...), uint8(r.Intn(16)), typ, uint8(r.Intn(10))}
-		b.S = [][]byte{txt(l[0]), txt(l[1]), txt(l[2]), data}
+		b.S = [][]byte{ftxt(l[0]), ftxt(l[1]), ftxt(l[2]), data}
 	case model.KAuthenReply:
 		l := r.lens(2, m16, 65530)
 		b.N = []uint8{uint8(1 + r.Intn(7)), uint8(r.Intn(2))}
@@ -149,16 +161,16 @@ func GenBody(r *Rand, kind string, big bool) BodySpec {
 		if r.Chance(20) {
 			b.N[0] = uint8(r.Intn(256))
 		}
-		b.S = [][]byte{txt(l[0]), r.Bytes(l[1])}
+		b.S = [][]byte{ftxt(l[0]), r.Bytes(l[1])}
 	case model.KAuthorReq:
 		l := r.lens(3, m8, 700)
 		b.N = []uint8{PickOf(r, methods...), uint8(r.Intn(16)), uint8(r.Intn(7)), uint8(r.Intn(10))}
-		b.S = [][]byte{txt(l[0]), txt(l[1]), txt(l[2])}
+		b.S = [][]byte{ftxt(l[0]), ftxt(l[1]), ftxt(l[2])}
 		b.Args = args(2, 255)
 	case model.KAuthorReply:
 		l := r.lens(2, m16, 40000)
 		b.N = []uint8{PickOf(r, authorSt...)}
-		b.S = [][]byte{txt(l[0]), txt(l[1])}
+		b.S = [][]byte{ftxt(l[0]), ftxt(l[1])}
 		b.Args = args(2, 255)
 	case model.KAcctReq:
 		l := r.lens(3, m8, 700)
@@ -167,12 +179,12 @@ func GenBody(r *Rand, kind string, big bool) BodySpec {
 			fl = uint8(r.Intn(256)) &^ 8 // any octet without stop+watchdog contradiction
 		}
 		b.N = []uint8{fl, PickOf(r, methods...), uint8(r.Intn(16)), uint8(r.Intn(7)), uint8(r.Intn(10))}
-		b.S = [][]byte{txt(l[0]), txt(l[1]), txt(l[2])}
+		b.S = [][]byte{ftxt(l[0]), ftxt(l[1]), ftxt(l[2])}
 		b.Args = args(0, 255)
 	case model.KAcctReply:
 		l := r.lens(2, m16, 65531)
 		b.N = []uint8{uint8(1 + r.Intn(2))}
-		b.S = [][]byte{txt(l[0]), txt(l[1])}
+		b.S = [][]byte{ftxt(l[0]), ftxt(l[1])}
 	}
 	return b
 }
